@@ -63,7 +63,7 @@ def cases(tier, seed):
     # a coordinate stored in a narrow type (float32 / int32) that is merged
     # with values needing the wide one, through save_merge_ds
     for eng in ("h5netcdf", "joblib"):
-        for cdt in ("float32", "int32", "int64"):
+        for cdt in ("float32", "int32", "int64", "str", "strvar"):
             for name in NAMES[:3]:
                 yield {"op": "merge-widen", "engine": eng, "cdt": cdt,
                        "name": name, "sizes": [2], "vdt": "float",
@@ -188,6 +188,35 @@ def check_widen(case):
     def key(sym):
         return "C14|%s|merge-widen|%s" % (eng, sym)
 
+    if cdt in ("str", "strvar"):
+        # short labels stored first, a longer one merged in: as coordinate
+        # labels ("str") or as the values of a variable ("strvar")
+        if cdt == "str":
+            ds1 = xr.Dataset({"v": (("a",), np.array([10.0, 20.0]))},
+                             coords={"a": ["aa", "bb"]})
+            ds2 = xr.Dataset({"v": (("a",), np.array([30.0]))},
+                             coords={"a": ["cccc"]})
+            want = {"aa": 10.0, "bb": 20.0, "cccc": 30.0}
+        else:
+            ds1 = xr.Dataset({"v": (("a",), np.array(["p", "q"]))},
+                             coords={"a": [1, 2]})
+            ds2 = xr.Dataset({"v": (("a",), np.array(["long"]))},
+                             coords={"a": [3]})
+            want = {1: "p", 2: "q", 3: "long"}
+        try:
+            xyz.save_ds(ds1, name, engine=eng)
+            xyz.save_merge_ds(ds2, name, engine=eng)
+            back = xyz.load_ds(name, engine=eng)
+            got = dict(zip(back["a"].values.tolist(),
+                           back["v"].values.tolist()))
+            if got != want:
+                vio.append((key("strings"), "short strings stored, a longer "
+                            "one merged in (%s): loaded %r, expected %r"
+                            % (cdt, got, want)))
+        except Exception as e:
+            vio.append((key("raised:" + type(e).__name__), repr(e)))
+        return {"nontrivial": True, "outcome": "merge-widen:%s" % (
+            "ok" if not vio else "bad"), "violations": vio}
     a1 = np.array([1, 2], dtype=cdt)
     # (0.1 has no exact float32 form; 2**40 does not fit an int32)
     a2 = np.array([0.1, 2.25]) if cdt != "int32" else np.array(
@@ -345,7 +374,12 @@ def check_case(case):
             why = same(h2.full_ds, orig, eng)
             if why:
                 vio.append((key("new-session"), "a new session loads: %s" % why))
-            h2.delete_ds()
+            if core.pick([case["name"], case["sizes"], case["vdt"], "del"], 2):
+                # (deleted by yet another session that never loaded it)
+                xyz.Harvester(xyz.Runner(f, var_names="out"), data_name=name,
+                              engine=eng).delete_ds()
+            else:
+                h2.delete_ds()
             if listing():
                 vio.append((key("delete"), "delete_ds left %r" % listing()))
     except core.HarnessError:
